@@ -55,6 +55,13 @@ func (i *rwInterceptor) WriteHeader(statusCode int) {
 		return
 	}
 
+	if statusCode >= 100 && statusCode < 200 && statusCode != http.StatusSwitchingProtocols {
+		// Informational responses (100 Continue, 103 Early Hints, ...) are not the response:
+		// net/http sends them right away and the handler still has to write the real status.
+		i.w.WriteHeader(statusCode)
+		return
+	}
+
 	i.wroteHeader = true
 
 	for k, vv := range i.w.Header() {
